@@ -76,7 +76,7 @@ def main(tier, seed):
             outs = list(ex.map(run_debug, jobs))
         model = model_lines(ops, timeout=300, chunks=64)
         ends = {}; cmds = {}; skipped_long = 0
-        for (src, script), (so, se, rc), m in zip(meta, outs, model):
+        for (src, script), (so, se, rc), m, job in zip(meta, outs, model, jobs):
             rep.count("debug-sessions")
             for w in script.split("\n"):
                 key = (w.strip().split(" ") or [""])[0]
@@ -95,6 +95,8 @@ def main(tier, seed):
             elif mend == "hang": want_rc = "timeout"
             if mend.startswith("crash"):
                 rep.violation("obligation", {"what": "the model itself reaches a crash outcome (dbg_no_crash should exclude it)", "source": src, "script": script, "model_end": mend})
+            if rc == "timeout" and want_rc != "timeout":
+                so, se, rc = run_debug((job[0], script, 60))      # loaded machine: one much longer retry before judging
             if want_rc == "timeout":
                 # the model ran out of fuel (long or endless `run`): only the common prefix is comparable
                 skipped_long += 1
